@@ -1,8 +1,14 @@
 import LC.Props.C16
+import LC.Props.C16Complete
 import LC.Props.C13
 #print axioms LC.V1Glue.multiple_within_threshold
 #print axioms LC.V1Glue.multiple_from_input
 #print axioms LC.V1Glue.multiple_nodup
+#print axioms LC.V1Glue.mstep_mono
+#print axioms LC.V1Glue.mfold_mono
+#print axioms LC.V1Glue.mstep_keeps
+#print axioms LC.V1Glue.multiple_complete
+#print axioms LC.V1Glue.multiple_exact
 #print axioms LC.V1Glue.findAll_sound
 #print axioms LC.V1Glue.findAll_first
 #print axioms LC.V1Glue.exact_token_range
